@@ -31,7 +31,7 @@ Require Import Cirbo.Model.Base Cirbo.Model.Gate Cirbo.Model.Den Cirbo.Model.Cir
 Require Import Cirbo.Generated.GateTypes Cirbo.Generated.PatternOps.
 Require Import Cirbo.Proofs.EvalFacts Cirbo.Proofs.PatternBits Cirbo.Proofs.PatternFacts
         Cirbo.Proofs.InputsTT Cirbo.Proofs.ConeSim Cirbo.Proofs.ConeFacts
-        Cirbo.Proofs.ValidatorFacts Cirbo.Proofs.CareFacts Cirbo.Proofs.SolverTable
+        Cirbo.Proofs.ValidatorFacts Cirbo.Proofs.MergeFacts Cirbo.Proofs.CareFacts Cirbo.Proofs.SolverTable
         Cirbo.Proofs.C04Examples.
 
 (* ---- (1) pattern operations, every width ---- *)
@@ -43,11 +43,12 @@ Theorem C04_complement_bits : forall W x i,
   (x < 2 ^ W)%N -> (i < W)%N -> N.testbit (2 ^ W - 1 - x) i = negb (N.testbit x i).
 Proof. exact testbit_compl. Qed.
 
-(* for each of the eleven supported types with the operand count eval_pattern reads
-   (NOT: 1, the others: 2) and operands below 2^(2^n): the result is again below 2^(2^n) and
-   bit i of it is den of the type applied to bit i of the operands, for every row i < 2^n *)
+(* for each of the eleven supported types with an operand count that eval_pattern reads
+   completely (NOT: 1; GEQ LT LEQ GT: 2; AND OR XOR NAND NOR NXOR: 2 or more) and operands
+   below 2^(2^n): the result is again below 2^(2^n) and bit i of it is den of the type applied
+   to bit i of the operands, for every row i < 2^n *)
 Theorem C04_eval_pattern_den : forall n t ops,
-  pattern_arity t = Some (length ops) ->
+  pattern_arity_ok t (length ops) = true ->
   Forall (fun p => (p < 2 ^ (2 ^ n))%N) ops ->
   exists r, eval_pattern (max_pattern n) t ops = Ok r /\ (r < 2 ^ (2 ^ n))%N /\
     forall i, (i < 2 ^ n)%N -> den t (map (fun p => N.testbit p i) ops) = Some (N.testbit r i).
@@ -56,11 +57,12 @@ Proof. exact eval_pattern_den. Qed.
 (* the other eight gate types raise UnsupportedOperationError (modelled as GenerationError);
    too few operands raise IndexError *)
 Theorem C04_eval_pattern_unsupported : forall mp t ops,
-  pattern_arity t = None -> eval_pattern mp t ops = Err GenerationError.
+  pattern_supported t = false -> eval_pattern mp t ops = Err GenerationError.
 Proof. exact eval_pattern_unsupported. Qed.
 
-Theorem C04_eval_pattern_short : forall mp t ops k,
-  pattern_arity t = Some k -> length ops < k -> eval_pattern mp t ops = Err PyIndexError.
+Theorem C04_eval_pattern_short : forall mp t ops,
+  pattern_supported t = true -> length ops < pattern_min_operands t ->
+  eval_pattern mp t ops = Err PyIndexError.
 Proof. exact eval_pattern_short. Qed.
 
 (* _generate_inputs_tt n: n patterns below 2^(2^n); bit i of the j-th is bit j of i *)
@@ -193,6 +195,21 @@ Theorem C04_accepted_step_preserves_outputs : forall old new leaves outs care,
     forall o v, In o (outputs old) -> Eval old a o v -> Eval new a o v.
 Proof. exact accepted_step_preserves_outputs. Qed.
 
+(* the "all outputs trivial" branch (no replace_subcircuit call): a cone output o with the
+   pattern of the leaf l is merged into l.  If check_merge accepts the states before / after:
+   every gate other than o keeps its value, l has the value o had, and the i-th circuit
+   output keeps its value *)
+Theorem C04_merge_substitution : forall old new leaves o l care a,
+  check_merge old new leaves o l care = true ->
+  (exists v, compared (length leaves) care v /\
+             Forall2 (fun x b => Eval old a x (inj b)) leaves v) ->
+  inputs new = inputs old /\
+  (forall x v, x <> o -> Eval old a x v -> Eval new a x v) /\
+  (forall v, Eval old a o v -> Eval new a l v) /\
+  (forall i x v, nth_error (outputs old) i = Some x -> Eval old a x v ->
+     exists x', nth_error (outputs new) i = Some x' /\ Eval new a x' v).
+Proof. exact merge_substitution. Qed.
+
 (* the care-set hypothesis is itself checkable: care_covers re-computes _eval_dont_cares *)
 Theorem C04_care_covers_sound : forall c leaves care,
   inputs_are_input_gates c ->
@@ -203,11 +220,18 @@ Theorem C04_care_covers_sound : forall c leaves care,
 Proof. exact care_covers_sound. Qed.
 
 (* ---- the added hypotheses are necessary (witnesses) ---- *)
-(* operand count: eval_pattern ignores the third operand of an AND gate *)
-Example C04_cex_ternary_and :
-  eval_pattern (max_pattern 0) AND [1; 1; 0]%N = Ok 1%N /\
+(* operand count: eval_pattern ignores a surplus operand of a comparison gate (den = None:
+   such a gate cannot be evaluated at all) *)
+Example C04_cex_surplus_operand :
+  eval_pattern (max_pattern 0) GEQ [1; 1; 0]%N = Ok 1%N /\
+  den GEQ (map (fun p => N.testbit p 0) [1; 1; 0]%N) = None.
+Proof. exact c04_cex_surplus_operand. Qed.
+
+(* n-ary gates are folded over all operands (the unrepaired code, defect D25, read only two) *)
+Example C04_example_ternary_and :
+  eval_pattern (max_pattern 0) AND [1; 1; 0]%N = Ok 0%N /\
   den AND (map (fun p => N.testbit p 0) [1; 1; 0]%N) = Some false.
-Proof. exact c04_cex_ternary_and. Qed.
+Proof. exact c04_ternary_and. Qed.
 
 (* cone_okb: a cone node that is not listed makes its users read the default pattern 0 *)
 Example C04_cex_missing_node :
@@ -237,3 +261,8 @@ Example C04_example_care_set_step :
   check_subst c04_dc_old c04_dc_new ["u"; "v"] ["t"] (Some c04_dc_care) = true /\
   care_covers c04_dc_old ["u"; "v"] c04_dc_care = true.
 Proof. exact c04_dc_step. Qed.
+
+Example C04_example_merge :
+  check_merge c04_merge_old c04_merge_new ["a"; "b"] "o" "a" None = true /\
+  check_merge c04_merge_old c04_merge_new ["a"; "b"] "o" "b" None = false.
+Proof. exact c04_merge_accepted. Qed.
